@@ -120,6 +120,17 @@ static std::string apply_op(Objs& objs, const std::vector<std::string>& w) {
     else o.s->update(IO<std::string>::parse(w[2]));
     return obs_obj(o);
   }
+  if (op == "updn" && w.size() == 6) {   // updn <id> <count> <start> <stride> <mod>: v_j = (start + j*stride) % mod
+    auto it = objs.find(atoi(w[1].c_str())); if (it == objs.end()) return "bad-op";
+    Obj& o = it->second;
+    const long cnt = atol(w[2].c_str()); const long long st = atoll(w[3].c_str()), sd = atoll(w[4].c_str()), md = atoll(w[5].c_str());
+    if (md <= 0 || o.ty == 's') return "bad-op";
+    for (long j = 0; j < cnt; ++j) {
+      const long long v = (st + j * sd) % md;
+      if (o.ty == 'i') o.i->update((int64_t)v); else o.d->update((double)v);
+    }
+    return obs_obj(o);
+  }
   if (op == "merge" && w.size() >= 3) {
     auto a = objs.find(atoi(w[1].c_str())), b = objs.find(atoi(w[2].c_str()));
     if (a == objs.end() || b == objs.end() || a->second.ty != b->second.ty || a == b) return "bad-op";
